@@ -166,6 +166,18 @@ func runPush(ours uint32, theirs uint32, ops []string) string {
 			}
 			stop := binary.LittleEndian.Uint64(m.payload[5+32*cnt : 13+32*cnt])
 			ws = append(ws, fmt.Sprintf("%s(%d,%d)", m.cmd[3:4], begin, stop))
+		case "reject":
+			// varstr cmd, code, varstr reason, [hash for tx/block]
+			pl := m.payload
+			l := int(pl[0])
+			cmd, code := string(pl[1:1+l]), pl[1+l]
+			rest := pl[2+l:]
+			rest = rest[1+int(rest[0]):]
+			h := "nohash"
+			if len(rest) == 32 {
+				h = strconv.FormatUint(binary.LittleEndian.Uint64(rest[:8]), 10)
+			}
+			ws = append(ws, fmt.Sprintf("reject(%s/%d/%s)", cmd, code, h))
 		case "addr", "addrv2":
 			n := uint64(m.payload[0])
 			if m.payload[0] == 0xfd {
